@@ -46,6 +46,28 @@ func hostileHsms(r *rand.Rand, thorough bool, emit func(kind string, in []byte))
 			}
 		}
 	}
+	// float items holding every non-finite pattern (refused, never a crash), at several depths and positions
+	for depth := 0; depth <= 3; depth++ {
+		for _, pat := range [][]byte{{0x7f, 0x80, 0, 0}, {0xff, 0x80, 0, 0}, {0x7f, 0xc0, 0, 0}, {0xff, 0xc0, 0, 1}, {0x7f, 0x80, 0, 1},
+			{0x7f, 0xf0, 0, 0, 0, 0, 0, 0}, {0xff, 0xf0, 0, 0, 0, 0, 0, 0}, {0x7f, 0xf8, 0, 0, 0, 0, 0, 0}, {0xff, 0xf8, 0, 0, 0, 0, 0, 1}, {0xff, 0xf0, 0, 0, 0, 0, 0, 1}} {
+			code := byte(0o44)
+			if len(pat) == 8 {
+				code = 0o40
+			}
+			for _, lead := range []int{0, 1, 3} {
+				var text []byte
+				for d := 0; d < depth; d++ {
+					text = append(text, 1, 1)
+				}
+				text = append(text, code<<2|1, byte(len(pat)*(lead+1)))
+				for i := 0; i < lead; i++ {
+					text = append(text, make([]byte, len(pat))...)
+				}
+				text = append(text, pat...)
+				emit("non-finite", frame(text))
+			}
+		}
+	}
 	// lists declaring huge counts with a few real children
 	for _, lb := range [][]byte{{0xff}, {0xff, 0xff}, {0xff, 0xff, 0xff}, {0x00, 0x01, 0x00}} {
 		for k := 0; k < 6; k++ {
